@@ -55,3 +55,48 @@ Definition check_lex (a : args_t) (exp : option (list rtok)) : bool :=
   opt_eqb (list_eqb rtok_eqb) (model a) exp.
 
 Definition case_t_lex : Type := (N * args_t * option (list rtok))%type.
+
+(** group [lextpl]: the lexer's other entry, [Lexer::lex(Template(file))].  The model is the
+    composition of this area's model of the lexing loop (run on the templated text, which is what
+    the real code lexes) with C15's model of [iter_segments] / the end-of-file marker
+    ([Templ.Model.lex_segments]) on the file's slice list: the elements are the tokens the string
+    model yields (end-of-file marker dropped), an element may be split iff its kind is the
+    whitespace kind.  Every token is compared by kind, text, source slice and templated slice. *)
+From Sq Require Templ.Model.
+
+Definition tsl (lit : bool) (s0 s1 t0 t1 : N) : Templ.Model.tslice :=
+  Templ.Model.mk_ts (if lit then Templ.Model.SLit else Templ.Model.STempl) s0 s1 t0 t1.
+
+Definition args_lextpl : Type := (args_t * N * list Templ.Model.tslice)%type.
+
+Definition el_of (kws : N) (t : rtok) : Templ.Model.elem :=
+  let '(k, _, _, _, t0, t1) := t in Templ.Model.mk_el t0 t1 (k =? kws).
+Fixpoint kind_at (body : list rtok) (dflt p : N) : N :=
+  match body with
+  | [] => dflt
+  | (k, _, _, _, t0, t1) :: r => if (t0 <=? p) && (p <? t1) then k else kind_at r dflt p
+  end.
+Definition input_of (a : args_t) : str := let '(_, s, _, _, _) := a in s.
+Definition eof_kind_of (a : args_t) : N := let '(tb, _, _, _, _) := a in tb_eof tb.
+
+Definition model_lextpl (a : args_lextpl) : option (list rtok) :=
+  let '(la, kws, sl) := a in
+  match model la with
+  | None => None
+  | Some toks =>
+      let body := removelast toks in
+      match Templ.Model.lex_segments sl (map (el_of kws) body) with
+      | None => None
+      | Some gs =>
+          Some (map (fun g =>
+                       let t0 := Templ.Model.g_t0 g in
+                       let t1 := Templ.Model.g_t1 g in
+                       (kind_at body (eof_kind_of la) t0, slice t0 t1 (input_of la),
+                        Templ.Model.g_s0 g, Templ.Model.g_s1 g, t0, t1)) gs)
+      end
+  end.
+
+Definition check_lextpl (a : args_lextpl) (exp : option (list rtok)) : bool :=
+  opt_eqb (list_eqb rtok_eqb) (model_lextpl a) exp.
+
+Definition case_t_lextpl : Type := (N * args_lextpl * option (list rtok))%type.
